@@ -328,7 +328,67 @@ def r18_5(ctx):
            "self._config['authkey'] = AuthenticationString(authkey)")
 
 
+
+def r18_6(ctx):
+    ctx.rule('R18.6', 'both ends key the digest with the key exactly as the user gave it: the listener stores its '
+                      'parameter, the client passes its parameter -- a key that one side transforms (hashes, truncates, '
+                      'pads) before the handshake no longer matches the same key on the other side', floor=3)
+    m = ctx.model
+    li = m.func('connection:Listener.__init__')
+    defs = [(dn, v) for (dn, t, v) in q.assigns(li, 'self._authkey')]
+    odd = [(dn, v) for (dn, v) in defs if not (isinstance(v, ast.Name) and v.id == 'authkey' and 'authkey' in li.params
+                                              and not q.assigns(li, 'authkey'))]
+    ctx.ob('R18.6', 'Listener.__init__:stores-the-key-as-given', bool(defs) and not odd, li, odd[0][0] if odd else None,
+           'self._authkey = authkey' if not odd else
+           'self._authkey = %s: the listener keys its digests with something else than the caller\'s key' % ast.unparse(odd[0][1])[:60])
+    ac = m.func('connection:Listener.accept')
+    cl = m.func('connection:Client')
+    for fi, want in ((ac, 'self._authkey'), (cl, 'authkey')):
+        calls = [(n, c) for (n, c) in q.calls(fi, lambda t: t in ('deliver_challenge', 'answer_challenge'))]
+        ok = bool(calls) and all(len(c.args) == 2 and ast.unparse(c.args[1]) == want for (n, c) in calls) and \
+            not (want == 'authkey' and q.assigns(fi, 'authkey'))
+        ctx.ob('R18.6', '%s:handshake-gets-that-key' % fi.qual.split(':')[1], ok, fi, calls[0][1] if calls else None,
+               'deliver_challenge / answer_challenge(c, %s)' % want)
+
+
+def no_second_owner_for_a_descriptor(ctx, rule, modules):
+    """socket.socket(fileno=X.fileno()), os.fdopen(X.fileno()) and os.close(X.fileno()) make a second owner for a
+    descriptor an object still holds: when either owner closes it the other is left with a number the kernel hands to
+    the next open -- the stale owner then closes or reads somebody else's connection"""
+    ctx.rule(rule, 'a descriptor that a connection object holds gets no second owner: no socket / file object is built '
+                   'over `<obj>.fileno()` (without detach()), and it is not closed behind the object\'s back', floor=0)
+    m = ctx.model
+    seen = 0
+    for qn, fi in sorted(m.funcs.items()):
+        if fi.module.name not in modules:
+            continue
+        for c in [x for x in walk_own(fi.node) if isinstance(x, ast.Call)]:
+            callee = fi.callee(c) or ''
+            fd_args = []
+            if callee in ('socket.socket', 'socket'):
+                fd_args = [k.value for k in c.keywords if k.arg == 'fileno'] + list(c.args[3:4])
+            elif callee in ('os.fdopen', 'os.close', 'io.open', 'open'):
+                fd_args = list(c.args[:1])
+                if callee != 'os.close' and any(k.arg == 'closefd' and ast.unparse(k.value) == 'False' for k in c.keywords):
+                    fd_args = []
+            if not fd_args:
+                continue
+            seen += 1
+            borrowed = [a for a in fd_args if any(isinstance(x, ast.Call) and isinstance(x.func, ast.Attribute) and
+                                                  x.func.attr == 'fileno' for x in ast.walk(a))]
+            detached = any(isinstance(x, ast.Call) and isinstance(x.func, ast.Attribute) and x.func.attr == 'detach'
+                           for x in walk_own(fi.node))
+            ok = not borrowed or detached
+            ctx.ob(rule, 'descriptor-owner@%s:%s' % (fi.qual.split(':')[1], callee), ok, fi, c,
+                   'built over a descriptor this code owns' if ok else
+                   '`%s` takes over `%s`, which the object still holds: closed twice, the second close hits whoever got '
+                   'the number in between' % (ast.unparse(c)[:50], ast.unparse(borrowed[0])[:40]))
+    ctx.note('%s: %d places that build an owner over a raw descriptor examined' % (rule, seen))
+
+
 def run(ctx):
+    r18_6(ctx)
+    no_second_owner_for_a_descriptor(ctx, 'R18.7', ('connection',))
     r18_1(ctx)
     r18_2(ctx)
     r18_3(ctx)
@@ -339,6 +399,9 @@ def run(ctx):
 
 _C = 'billiard/connection.py'
 MUTANTS = [
+    ('listener-prehashes-long-keys', _C, "        self._authkey = authkey\n\n    def accept(self):", "        self._authkey = authkey and (authkey if len(authkey) < 64 else __import__('hashlib').md5(authkey).digest())\n\n    def accept(self):", 'R18.6'),
+    ('refused-peer-hung-up-through-a-second-socket-object', _C, "        if self._authkey:\n            deliver_challenge(c, self._authkey)\n            answer_challenge(c, self._authkey)\n        return c",
+     "        if self._authkey:\n            try:\n                deliver_challenge(c, self._authkey)\n                answer_challenge(c, self._authkey)\n            except AuthenticationError:\n                with socket.socket(fileno=c.fileno()) as s:\n                    s.shutdown(socket.SHUT_RDWR)\n                raise\n        return c", 'R18.7'),
     ('accept-skips-answer', _C, "        if self._authkey:\n            deliver_challenge(c, self._authkey)\n            answer_challenge(c, self._authkey)\n        return c", "        if self._authkey:\n            deliver_challenge(c, self._authkey)\n        return c", 'R18.1'),
     ('accept-swallows-failure', _C, "        if self._authkey:\n            deliver_challenge(c, self._authkey)\n            answer_challenge(c, self._authkey)\n        return c",
      "        if self._authkey:\n            try:\n                deliver_challenge(c, self._authkey)\n                answer_challenge(c, self._authkey)\n            except AuthenticationError:\n                pass\n        return c", 'R18.1'),
